@@ -449,6 +449,18 @@ def main():
 
     classify(fails)
 
+    # C08 only: the property IS "the implementation computes what the source semantics defines", and the model's
+    # compiler+machine are proved equal to that semantics (compile_correct); an input on which the implementation
+    # and the model disagree is therefore itself a concrete failing input of the property
+    if cfg.get("mismatch_is_violation") and not violations:
+        for r in suites:
+            for m in r["mismatches"][:1]:
+                path = write_replay(pid, "differs-from-source-semantics", dict(property=pid, suite=r["name"],
+                                    signature="implementation-differs-from-the-proved-source-semantics",
+                                    detail="compiled program / run outcome differs from Numscript/Sem (see check_case / diagnose in Numscript/Corr.v)",
+                                    input=m["input"], shard=m["shard"], index=m["index"], seed=seed))
+                violations.append("VIOLATION property=%s replay=%s" % (pid, path))
+
     # 4. a tie is broken but no unlisted oracle failure yet: enlarge the search
     searched = False
     if broken and not violations and not replay:
